@@ -790,9 +790,42 @@ func runC12(c *Ctx) {
 					return true
 				}
 				fn := calleeOf(info, call)
+				// a test-and-record method of the state that asks through a query method (firstUseOfClass → hasClassBeenRendered)
+				if fn != nil {
+					for _, tfd := range allFuncDecls(p) {
+						if info.Defs[tfd.Name] != types.Object(fn) || tfd.Recv == nil || tfd.Body == nil || recvTypeName(tfd.Recv.List[0].Type) != ctxType {
+							continue
+						}
+						ast.Inspect(tfd.Body, func(y ast.Node) bool {
+							if ic, ok := y.(*ast.CallExpr); ok {
+								ifn := calleeOf(info, ic)
+								for _, m2 := range methods {
+									if m2.query && types.Object(m2.obj) == types.Object(ifn) {
+										classKeys[m2.field+"|"+m2.pref] = true
+									}
+								}
+							}
+							return true
+						})
+					}
+				}
 				for _, m := range methods {
 					if m.query && types.Object(m.obj) == types.Object(fn) {
 						classKeys[m.field+"|"+m.pref] = true
+						// a test-and-record method that asks through the query method (firstUseOfClass → hasClassBeenRendered)
+						if m.fd.Body != nil {
+							ast.Inspect(m.fd.Body, func(y ast.Node) bool {
+								if ic, ok := y.(*ast.CallExpr); ok {
+									ifn := calleeOf(info, ic)
+									for _, m2 := range methods {
+										if m2.query && m2.field != "" && types.Object(m2.obj) == types.Object(ifn) {
+											classKeys[m2.field+"|"+m2.pref] = true
+										}
+									}
+								}
+								return true
+							})
+						}
 					}
 				}
 				return true
